@@ -343,10 +343,25 @@ type point struct {
 type tracker struct {
 	vals  map[ssa.Value]bool // values known equal to the tracked one
 	cells map[ssa.Value]bool // addresses currently holding the tracked one
+	// subst binds, along an interprocedural path, a callee's parameters to the
+	// caller's arguments and a call's value(s) to what the callee returned.
+	subst map[ssa.Value]ssa.Value
+}
+
+// resolve follows the substitution chain of v.
+func (t *tracker) resolve(v ssa.Value) ssa.Value {
+	for n := 0; n < 12; n++ {
+		w, ok := t.subst[v]
+		if !ok || w == v {
+			return v
+		}
+		v = w
+	}
+	return v
 }
 
 func newTracker(vs ...ssa.Value) *tracker {
-	t := &tracker{vals: map[ssa.Value]bool{}, cells: map[ssa.Value]bool{}}
+	t := &tracker{vals: map[ssa.Value]bool{}, cells: map[ssa.Value]bool{}, subst: map[ssa.Value]ssa.Value{}}
 	for _, v := range vs {
 		t.vals[v] = true
 	}
@@ -361,6 +376,9 @@ func (t *tracker) clone() *tracker {
 	for k := range t.cells {
 		n.cells[k] = true
 	}
+	for k, v := range t.subst {
+		n.subst[k] = v
+	}
 	return n
 }
 
@@ -371,6 +389,12 @@ func (t *tracker) key() string {
 	}
 	for k := range t.cells {
 		s = append(s, "c"+k.Name())
+	}
+	for k, v := range t.subst {
+		// constant results of inlined callees decide which branches are feasible
+		if c, ok := v.(*ssa.Const); ok {
+			s = append(s, fmt.Sprintf("s%p=%s", k, c.Name()))
+		}
 	}
 	sort.Strings(s)
 	return strings.Join(s, ",")
@@ -481,42 +505,129 @@ type walkOpts struct {
 	// "nil"/"nonnil" when the If tests a tracked value, "" otherwise.
 	// Returning true prunes that edge.
 	edge func(from, to *ssa.BasicBlock, label string, cond ssa.Value, onTrue bool, t *tracker) (prune bool)
+	// noInline keeps the walk inside the function it started in.
+	noInline bool
+}
+
+var walkGaveUp int
+var walkDebug = false
+
+// maxInlineDepth bounds how many call levels walk descends into.
+const maxInlineDepth = 2
+
+// smallCallee: below the first level only small helpers (isClosed, Options, addRef …) are entered.
+const smallCallee = 8
+
+// inlinable: a call the walker descends into: a plain call of a moss function
+// with a body, so that a guard, a lock operation or a check that was moved
+// into a helper is seen where it executes.
+func inlinable(call *ssa.Call) *ssa.Function {
+	h := call.Call.StaticCallee()
+	if h == nil || h.Blocks == nil || h.Pkg == nil || h.Pkg.Pkg.Path() != mossPath {
+		return nil
+	}
+	if len(h.Blocks) > 80 {
+		return nil
+	}
+	return h
 }
 
 // walk explores every CFG path from start (path-sensitive only in the
-// tracked-value set), visiting each (block, tracker-state) once.
+// tracked-value set), visiting each (call stack, block, tracker-state) once.
+// It descends into moss callees (maxInlineDepth levels, no recursion): their
+// instructions and edges are visited like the caller's; their returns are not
+// reported to visit (only returns of the function the walk started in are);
+// a constant boolean result decides the caller's branch on it.
 func walk(start point, o walkOpts) {
+	if o.noInline {
+		walkImpl(start, o)
+		return
+	}
+	if !walkImpl(start, o) {
+		// the interprocedural state space was too large: fall back to the intra-procedural walk
+		// (the callbacks only ever set flags, so running them again is harmless)
+		walkGaveUp++
+		o.noInline = true
+		walkImpl(start, o)
+	}
+}
+
+func walkImpl(start point, o walkOpts) bool {
+	type frame = walkFrame
 	type item struct {
-		p point
-		t *tracker
+		p     point
+		t     *tracker
+		stack []frame
 	}
 	seen := map[string]bool{}
 	t0 := newTracker(o.seed...)
-	work := []item{{start, t0}}
+	work := []item{{p: start, t: t0}}
+	stackKey := func(st []frame) string {
+		k := ""
+		for _, f := range st {
+			k += fmt.Sprintf("%p>", f.call)
+		}
+		return k
+	}
 	for len(work) > 0 {
 		it := work[len(work)-1]
 		work = work[:len(work)-1]
 		b, t := it.p.b, it.t
-		if it.p.i == 0 || true {
-			k := fmt.Sprintf("%d@%d|%s", b.Index, it.p.i, t.key())
-			if seen[k] {
-				continue
-			}
-			seen[k] = true
+		k := fmt.Sprintf("%s%p:%d@%d|%s", stackKey(it.stack), b.Parent(), b.Index, it.p.i, t.key())
+		if seen[k] {
+			continue
+		}
+		seen[k] = true
+		if len(seen) > 60000 {
+			return false
 		}
 		pruned := false
-		for k := it.p.i; k < len(b.Instrs); k++ {
-			ins := b.Instrs[k]
+		descended := false
+		for idx := it.p.i; idx < len(b.Instrs); idx++ {
+			ins := b.Instrs[idx]
 			if _, isPhi := ins.(*ssa.Phi); isPhi {
 				continue
+			}
+			if r, isRet := ins.(*ssa.Return); isRet && len(it.stack) > 0 {
+				// return from an inlined callee: bind the results and continue in the caller
+				fr := it.stack[len(it.stack)-1]
+				if walkDebug {
+					fmt.Printf("DEBUG return from %s to %s@%d\n", b.Parent().Name(), fr.ret.b.Parent().Name(), fr.ret.i)
+				}
+				nt := t.clone()
+				bindResults(nt, fr.call, r)
+				work = append(work, item{p: fr.ret, t: nt, stack: it.stack[:len(it.stack)-1]})
+				descended = true
+				break
 			}
 			if o.visit != nil && o.visit(ins, t) {
 				pruned = true
 				break
 			}
 			t.step(ins, o.origin, o.originIdx)
+			if call, isCall := ins.(*ssa.Call); isCall && !o.noInline && len(it.stack) < maxInlineDepth && call != o.origin {
+				if h := inlinable(call); h != nil && !onStack(it.stack, h, b.Parent()) && (len(it.stack) == 0 || len(h.Blocks) <= smallCallee) {
+					nt := t.clone()
+					for pi, p := range h.Params {
+						if pi < len(call.Call.Args) {
+							arg := nt.resolve(call.Call.Args[pi])
+							nt.subst[p] = arg
+							if nt.vals[call.Call.Args[pi]] {
+								nt.vals[p] = true
+							}
+						}
+					}
+					if walkDebug {
+						fmt.Printf("DEBUG inline %s from %s\n", h.Name(), b.Parent().Name())
+					}
+					ns := append(append([]frame{}, it.stack...), frame{call, point{b, idx + 1}})
+					work = append(work, item{p: point{h.Blocks[0], 0}, t: nt, stack: ns})
+					descended = true
+					break
+				}
+			}
 		}
-		if pruned {
+		if pruned || descended {
 			continue
 		}
 		var cond ssa.Value
@@ -525,10 +636,48 @@ func walk(start point, o walkOpts) {
 				cond = iff.Cond
 			}
 		}
+		// resolve the condition through negations (cond1) and, further, through inlined results (cond2)
+		flip1, flip2 := false, false
+		cond1, cond2 := cond, cond
+		if cond != nil {
+			for n := 0; n < 12; n++ {
+				if u, ok := cond1.(*ssa.UnOp); ok && u.Op == token.NOT {
+					cond1 = u.X
+					flip1 = !flip1
+					continue
+				}
+				break
+			}
+			cond2, flip2 = cond1, flip1
+			for n := 0; n < 12; n++ {
+				if u, ok := cond2.(*ssa.UnOp); ok && u.Op == token.NOT {
+					cond2 = u.X
+					flip2 = !flip2
+					continue
+				}
+				if w, ok := t.subst[cond2]; ok && w != cond2 {
+					if _, isConst := w.(*ssa.Const); isConst {
+						// remember the value that evaluated to the constant (e.g. the isClosed() call)
+						cond1, flip1 = cond2, flip2
+					}
+					cond2 = w
+					continue
+				}
+				break
+			}
+		}
 		for si, s := range b.Succs {
 			label := ""
-			onTrue := si == 0
-			if cond != nil {
+			onTrue := (si == 0) != flip2
+			cond := cond2
+			if cond2 != nil {
+				if kv, isConst := constBool(cond2); isConst && len(b.Succs) == 2 {
+					if kv != onTrue {
+						continue // the inlined callee returned a constant: only one branch is feasible
+					}
+					// predicates recognise the call, not the constant it returned on this path
+					cond, onTrue = cond1, (si == 0) != flip1
+				}
 				if isT, nilOnTrue := t.nilTest(cond); isT {
 					if nilOnTrue == onTrue {
 						label = "nil"
@@ -540,9 +689,70 @@ func walk(start point, o walkOpts) {
 			if o.edge != nil && o.edge(b, s, label, cond, onTrue, t) {
 				continue
 			}
+			if o.edge != nil && cond1 != nil && cond1 != cond {
+				// the same edge seen through the un-substituted condition (e.g. `if helper()`):
+				// predicates that recognise the helper call itself still apply
+				if o.edge(b, s, "", cond1, (si == 0) != flip1, t) {
+					continue
+				}
+			}
 			nt := t.clone()
+			if cond != nil {
+				// constant results of inlined callees correlate only the first branch after the return;
+				// forgetting them afterwards keeps the state space small
+				for k, v := range nt.subst {
+					if _, isConst := v.(*ssa.Const); isConst {
+						delete(nt.subst, k)
+					}
+				}
+			}
 			nt.enter(b, s)
-			work = append(work, item{point{s, 0}, nt})
+			work = append(work, item{p: point{s, 0}, t: nt, stack: it.stack})
+		}
+	}
+	return true
+}
+
+// walkFrame is one inlined call on the walker's stack.
+type walkFrame struct {
+	call *ssa.Call
+	ret  point
+}
+
+// onStack: descending into h would recurse.
+func onStack(st []walkFrame, h *ssa.Function, cur *ssa.Function) bool {
+	if h == cur {
+		return true
+	}
+	for _, f := range st {
+		if f.call.Call.StaticCallee() == h || f.call.Parent() == h {
+			return true
+		}
+	}
+	return false
+}
+
+// bindResults records, on return from an inlined callee, what the call's
+// value (or the Extracts of its tuple) stands for, and keeps the tracked
+// value tracked across the return.
+func bindResults(t *tracker, call *ssa.Call, r *ssa.Return) {
+	if len(r.Results) == 1 {
+		rv := t.resolve(r.Results[0])
+		t.subst[call] = rv
+		if t.vals[r.Results[0]] || t.vals[rv] {
+			t.vals[call] = true
+		}
+		return
+	}
+	if refs := call.Referrers(); refs != nil {
+		for _, ref := range *refs {
+			if e, ok := ref.(*ssa.Extract); ok && e.Index < len(r.Results) {
+				rv := t.resolve(r.Results[e.Index])
+				t.subst[e] = rv
+				if t.vals[r.Results[e.Index]] || t.vals[rv] {
+					t.vals[e] = true
+				}
+			}
 		}
 	}
 }
@@ -1000,4 +1210,90 @@ func localStoreBefore(load *ssa.UnOp, cell ssa.Value) ssa.Value {
 		}
 	}
 	return nil
+}
+
+// originsDeep is origins() made interprocedural for helper extraction: a
+// parameter of an unexported function is replaced by the arguments at its
+// call sites, and the result of a moss callee by what the callee returns
+// (with its parameters bound to this call's arguments). Bounded depth.
+func originsDeep(c *Ctx, v ssa.Value) []ssa.Value { return originsDeepIn(c, v, nil) }
+
+// originsDeepIn: like originsDeep, but the parameters of home are leaves (not lifted to home's callers).
+func originsDeepIn(c *Ctx, v ssa.Value, home *ssa.Function) []ssa.Value {
+	var out []ssa.Value
+	seen := map[ssa.Value]bool{}
+	var rec func(v ssa.Value, depth int, bind map[ssa.Value]ssa.Value)
+	rec = func(v ssa.Value, depth int, bind map[ssa.Value]ssa.Value) {
+		for _, og := range origins(v) {
+			if b, ok := bind[og]; ok {
+				rec(b, depth, nil)
+				continue
+			}
+			if seen[og] {
+				continue
+			}
+			seen[og] = true
+			if depth < 3 {
+				if p, ok := og.(*ssa.Parameter); ok {
+					f := p.Parent()
+					if f != nil && f != home && f.Pkg == c.Moss && !isExportedRoot(f) {
+						idx := -1
+						for k, q := range f.Params {
+							if q == p {
+								idx = k
+							}
+						}
+						sites := c.Callers(f)
+						lifted := false
+						for _, s := range sites {
+							if s.Instr.Common().StaticCallee() != f || s.Caller == f {
+								continue
+							}
+							args := s.Instr.Common().Args
+							if idx >= 0 && idx < len(args) {
+								lifted = true
+								rec(args[idx], depth+1, nil)
+							}
+						}
+						if lifted {
+							continue
+						}
+					}
+				}
+				var call *ssa.Call
+				ridx := 0
+				switch x := og.(type) {
+				case *ssa.Call:
+					call = x
+				case *ssa.Extract:
+					if cl, ok := x.Tuple.(*ssa.Call); ok {
+						call, ridx = cl, x.Index
+					}
+				}
+				if call != nil {
+					if h := call.Call.StaticCallee(); h != nil && h.Pkg == c.Moss && h.Blocks != nil && h != call.Parent() && !isExportedRoot(h) && len(h.Blocks) <= 12 {
+						nb := map[ssa.Value]ssa.Value{}
+						for k, p := range h.Params {
+							if k < len(call.Call.Args) {
+								nb[p] = call.Call.Args[k]
+							}
+						}
+						n := 0
+						eachInstr(h, func(i ssa.Instruction) {
+							if r, ok := i.(*ssa.Return); ok && ridx < len(r.Results) {
+								n++
+								rec(r.Results[ridx], depth+1, nb)
+							}
+						})
+						if n > 0 {
+							continue
+						}
+					}
+				}
+			}
+			out = append(out, og)
+		}
+	}
+	rec(v, 0, nil)
+	return out
 }
